@@ -1,6 +1,8 @@
 package main
 
 import (
+	"os"
+	"path/filepath"
 	"strings"
 	"time"
 )
@@ -53,7 +55,7 @@ func propSpecs() map[string]*PropSpec {
 	quickBounds := func(tier string) Bounds {
 		b := DefaultBounds
 		if tier == "thorough" {
-			b.SliceLen, b.SpareCap, b.MapLen, b.StrLen, b.PtrDepth = 3, 2, 3, 3, 2
+			b.SliceLen, b.SpareCap, b.MapLen, b.StrLen, b.PtrDepth, b.Unwind = 3, 2, 3, 3, 2, 12
 		}
 		return b
 	}
@@ -161,6 +163,21 @@ func propSpecs() map[string]*PropSpec {
 			b.Unwind = 40
 			// main() cannot be replayed natively under `go test` (it parses the test binary's flags and calls the real
 			// loader): counterexamples of the main_* harnesses are confirmed through the public API instead
+			// differential: the same package generated with default prefixes and again with -prefix=gen
+			r.modeStatic("static", "c12diff", "^VX_C12_diff_", DefaultBounds, false, func(rel string, fp *FixPkg) {
+				dir := filepath.Join(r.S.Repo, rel)
+				os.Remove(filepath.Join(dir, "zz_replay_test.go"))
+				r.S.runGoderive(fp)
+				if !fp.GenOK {
+					return
+				}
+				os.Rename(filepath.Join(dir, "derived.gen.go"), filepath.Join(dir, "zz_default.go"))
+				data, _ := os.ReadFile(filepath.Join(dir, "h.go.second"))
+				os.WriteFile(filepath.Join(dir, "h.go"), data, 0o644)
+				os.WriteFile(filepath.Join(dir, "zz_replay_test.go"), []byte("package c12diff\n\nimport (\n\t\"testing\"\n\n\t\"github.com/awalterschulze/goderive/vxlib/vx\"\n)\n\nfunc TestVXReplay(t *testing.T) {\n\tvx.Replay(t, map[string]func(){\"VX_C12_diff_equal\": VX_C12_diff_equal, \"VX_C12_diff_compare\": VX_C12_diff_compare, \"VX_C12_diff_hash\": VX_C12_diff_hash, \"VX_C12_diff_deepcopy\": VX_C12_diff_deepcopy})\n}\n"), 0o644)
+				fp.GenOut, fp.GenCode, fp.GenOK = "", 0, false
+				r.S.runGoderive(fp, "-prefix=gen")
+			})
 			r.ReplayOverride = func(hr *HarnessResult) string { return c12PublicAPI(r, hr.Name) }
 			r.modeB(".", "^VX_C12_main_", true, b, "derive")
 			r.ReplayOverride = nil
@@ -194,6 +211,17 @@ func propSpecs() map[string]*PropSpec {
 				f = "^VX_C01_"
 			}
 			r.modeB("derive", f, true, DefaultBounds)
+			// call-site forms and imported same-named packages (mode A on a hand-written fixture)
+			r.modeStatic("static", "c01forms", "^VX_C01_form_", DefaultBounds, false, func(rel string, fp *FixPkg) {
+				r.S.runGoderive(fp)
+				if fp.GenOK {
+					// the _test file form: the package must compile together with its tests
+					if out, code, _ := runCmd(r.S.Repo, goEnv(), 3*time.Minute, "go", "vet", "./"+rel); code != 0 {
+						fp.GenOK = false
+						fp.GenOut = "TYPECHECK: " + out
+					}
+				}
+			})
 		}})
 	caseSpec := func(id, title string, f func(tier string) []CaseInst, outside []string) {
 		add(&PropSpec{ID: id, Title: title, PkgSize: 1, Outside: outside,
